@@ -96,6 +96,14 @@ func (t Thing) TakesUint(u uint64) uint64                       { return u }
 func (t Thing) TakesInt8(i int8) int8                           { return i }
 func (t Thing) TakesUint8(u uint8) uint8                        { return u }
 
+// Parameters that are arrays (of a fixed size, by value and by pointer): no list is assignable to them, and one
+// shorter than the array cannot even be converted.
+func (t Thing) TakesArray(a [2]int) int            { return a[0] + a[1] }
+func (t Thing) TakesArrayPtr(a *[3]int) int        { return len(a) }
+func (t Thing) TakesVals(a [2]stick.Value) int     { return len(a) }
+func (t Thing) TakesBytes(a [4]byte) int           { return len(a) }
+func (t Thing) TakesValsPtr(a *[2]stick.Value) int { return len(a) }
+
 // accessor-style names: methods like any other - "Secret" names no attribute of a Thing, "GetSecret" does
 func (t Thing) GetSecret() string { return "the secret" }
 func (t Thing) IsOpen() bool      { return true }
@@ -254,6 +262,13 @@ func Containers() []Named {
 		N("map[KeyStr]int", map[KeyStr]int{"a": 1, "1": 2, "true": 3, "1.5": 4}), N("map[KeyInt]string", map[KeyInt]string{1: "one", 0: "zero"}), N("map[KeyStr]int nil", map[KeyStr]int(nil)),
 		N("map[KeyStringer]int", map[KeyStringer]int{"a": 1, "<a>": 2}), N("[]OuterIface", []OuterIface{{Any: []int{1}}, {Any: map[string]int{"x": 1}}, {Any: "s"}}), N("[2]OuterIface", [2]OuterIface{{Any: []int{1}}, {Any: []int{1}}}),
 		N("NamedSlice", NamedSlice{5, 6}), N("NamedMap", NamedMap{"a": 1}), N("[]KeyStr", []KeyStr{"x", "y"}),
+		// every way of reaching an embedded pointer (nil or not) two and three levels down: by value, by pointer, mixed
+		N("ViaVal nil", ViaVal{OuterPtr{nil, 1}}), N("*ViaVal nil", &ViaVal{OuterPtr{nil, 2}}), N("ViaVal set", ViaVal{OuterPtr{&Inner{"vv", 1}, 3}}),
+		N("ViaPtr nil below", ViaPtr{&OuterPtr{nil, 4}}), N("*ViaPtr nil below", &ViaPtr{&OuterPtr{nil, 5}}), N("ViaPtr nil itself", ViaPtr{}), N("ViaPtr set", ViaPtr{&OuterPtr{&Inner{"vp", 2}, 6}}),
+		N("ViaValVal nil", ViaValVal{ViaVal{OuterPtr{nil, 7}}}), N("*ViaValVal nil", &ViaValVal{}), N("ViaValVal set", ViaValVal{ViaVal{OuterPtr{&Inner{"vvv", 3}, 8}}}),
+		N("ViaPtrVal nil below", ViaPtrVal{&ViaVal{}}), N("ViaPtrVal set", ViaPtrVal{&ViaVal{OuterPtr{&Inner{"vpv", 4}, 9}}}), N("ViaValPtr nil below", ViaValPtr{ViaPtr{&OuterPtr{}}}), N("ViaValPtr nil above", ViaValPtr{}),
+		N("BesideVal nil", BesideVal{A1{1, 2}, ViaVal{}}), N("*BesideVal set", &BesideVal{A1{1, 2}, ViaVal{OuterPtr{&Inner{"bv", 5}, 10}}}),
+		N("Deep1 (String from a nil pointer below a value)", Deep1{}), N("*Deep2", &Deep2{}), N("Deep1 set", Deep1{Deep0{&ValStringer{"d1"}}}), N("DeepI1 (Number from a nil interface below a value)", DeepI1{}), N("DeepI2 set", DeepI2{DeepI1{DeepI0{ValNumber{3}}}}),
 	}
 }
 
@@ -263,7 +278,7 @@ func Keys() []Named {
 	return []Named{
 		N("'a'", "a"), N("'k'", "k"), N("'1'", "1"), N("'0'", "0"), N("'Name'", "Name"), N("'hidden'", "hidden"), N("time.March", time.March), N("KindInt(2) printing as text", KindInt(2)), N("KindFloat(1) printing as text", KindFloat(1)), N("time.Duration(1)", time.Duration(1)), N("'hiddenFn'", "hiddenFn"), N("'hiddenNil'", "hiddenNil"), N("'ValueMethod'", "ValueMethod"), N("'PtrMethod'", "PtrMethod"),
 		N("'Add'", "Add"), N("'Variadic'", "Variadic"), N("'Join'", "Join"), N("'Fmt'", "Fmt"), N("'Two'", "Two"), N("'Nothing'", "Nothing"), N("'NilFunc'", "NilFunc"), N("'Fn'", "Fn"), N("'TakesPtr'", "TakesPtr"), N("'TakesUint'", "TakesUint"), N("'TakesInt8'", "TakesInt8"), N("'TakesUint8'", "TakesUint8"),
-		N("'TakesIface'", "TakesIface"), N("'TakesFloat'", "TakesFloat"), N("'TakesSlice'", "TakesSlice"), N("'Concat'", "Concat"), N("'hiddenMethod'", "hiddenMethod"), N("'missing'", "missing"), N("''", ""), N("'X'", "X"), N("'OnlyA'", "OnlyA"), N("'OnlyB'", "OnlyB"), N("'Étiquette'", "Étiquette"), N("'Ωmega'", "Ωmega"), N("'étiquette'", "étiquette"), N("-0.0", math.Copysign(0, -1)), N("'-0'", "-0"), N("'-0.0'", "-0.0"), N("float32 -0", float32(math.Copysign(0, -1))), NilSafePointer(), N("embeds a nil SafeValue as key", EmbedsSafe{}), N("opinionated safe 1", OpinionatedSafe{Inner: 1}), N("'Secret'", "Secret"), N("'secret'", "secret"), N("'Open'", "Open"), N("'Kids'", "Kids"), N("'GetSecret'", "GetSecret"), N("'IsOpen'", "IsOpen"), N("'HasKids'", "HasKids"), N("'Get'", "Get"), N("'count'", "count"),
+		N("'TakesIface'", "TakesIface"), N("'TakesFloat'", "TakesFloat"), N("'TakesSlice'", "TakesSlice"), N("'TakesArray'", "TakesArray"), N("'TakesArrayPtr'", "TakesArrayPtr"), N("'TakesVals'", "TakesVals"), N("'TakesBytes'", "TakesBytes"), N("'TakesValsPtr'", "TakesValsPtr"), N("'Concat'", "Concat"), N("'hiddenMethod'", "hiddenMethod"), N("'missing'", "missing"), N("''", ""), N("'X'", "X"), N("'OnlyA'", "OnlyA"), N("'OnlyB'", "OnlyB"), N("'Étiquette'", "Étiquette"), N("'Ωmega'", "Ωmega"), N("'étiquette'", "étiquette"), N("-0.0", math.Copysign(0, -1)), N("'-0'", "-0"), N("'-0.0'", "-0.0"), N("float32 -0", float32(math.Copysign(0, -1))), NilSafePointer(), N("embeds a nil SafeValue as key", EmbedsSafe{}), N("opinionated safe 1", OpinionatedSafe{Inner: 1}), N("'Secret'", "Secret"), N("'secret'", "secret"), N("'Open'", "Open"), N("'Kids'", "Kids"), N("'GetSecret'", "GetSecret"), N("'IsOpen'", "IsOpen"), N("'HasKids'", "HasKids"), N("'Get'", "Get"), N("'count'", "count"),
 		N("'Check'", "Check"), N("'Last'", "Last"), N("'Err'", "Err"), N("'Items'", "Items"), N("'Inner'", "Inner"), N("'Any'", "Any"), N("'Attrs'", "Attrs"), N("'ID'", "ID"), N("'note'", "note"), N("'innerLower'", "innerLower"), N("'A'", "A"), N("'B'", "B"), N("'C'", "C"), N("'N'", "N"), N("'Extra'", "Extra"), N("'Hello'", "Hello"), N("'PtrHello'", "PtrHello"), N("'String'", "String"), N("'Number'", "Number"), N("'Boolean'", "Boolean"), N("'Tag'", "Tag"), N("'PP'", "PP"), N("'Next'", "Next"), N("KeyStr('a')", KeyStr("a")), N("KeyStringer('a')", KeyStringer("a")), N("OuterIface{slice}", OuterIface{Any: []int{1}}), N("KeyInt(1)", KeyInt(1)), N("'true'", "true"),
 		// strings that strconv.ParseFloat accepts but that are no usable index
 		N("'NaN'", "NaN"), N("'nan'", "nan"), N("'Inf'", "Inf"), N("'-Inf'", "-Inf"), N("'+Infinity'", "+Infinity"), N("'1e400'", "1e400"), N("'0x1'", "0x1"), N("'0x1p-2'", "0x1p-2"),
@@ -299,7 +314,7 @@ func ArgLists() [][]stick.Value {
 	var nilThing *Thing
 	return [][]stick.Value{
 		{}, {1}, {1, 2}, {1, 2, 3}, {"a"}, {"a", "b"}, {nil}, {nil, nil}, {1.5}, {1.5, 2.0}, {2.0, 3.0}, {"1", "2"}, {true}, {&th}, {nilThing}, {th},
-		{[]int{1, 2}}, {[]stick.Value{1}}, {1, "b"}, {int64(1), int8(2)}, {math.NaN()}, {func() {}},
+		{[]int{1, 2}}, {[]stick.Value{1}}, {[]int{}}, {[]int{1}}, {[]int{1, 2, 3}}, {[]stick.Value{}}, {[]stick.Value{1, 2}}, {[2]int{1, 2}}, {&[3]int{1, 2, 3}}, {[]byte("ab")}, {"ab"}, {"abcd"}, {1, "b"}, {int64(1), int8(2)}, {math.NaN()}, {func() {}},
 		// numbers that do not fit the parameter: negative for unsigned, too large, wrapping around
 		{-1}, {int64(-1)}, {300}, {uint64(1 << 63)}, {-129}, {int8(-1)}, {1e30}, {math.Copysign(0, -1)}, {float32(math.Copysign(0, -1)), math.Copysign(0, -1)}, {"-0"},
 		// unsigned values with the top bit set: no signed type of that size holds them
@@ -422,6 +437,19 @@ type OuterPtr struct {
 	*Inner
 	Extra int
 }
+
+// ViaX: an embedded pointer reached through further levels of embedding, by value and by pointer.
+type (
+	ViaVal    struct{ OuterPtr }
+	ViaPtr    struct{ *OuterPtr }
+	ViaValVal struct{ ViaVal }
+	ViaPtrVal struct{ *ViaVal }
+	ViaValPtr struct{ ViaPtr }
+	BesideVal struct {
+		A1
+		ViaVal
+	}
+)
 
 // OuterIface has an interface-typed field and a pointer to a pointer.
 type OuterIface struct {
